@@ -88,7 +88,7 @@ func init() {
 				}
 			}
 			if fn := r.MustFn("C20.checks", hp, "ResponderAct3.FinalizeHandshake"); fn != nil {
-				suc := ReturnPaths(fn, 0, isNilErr)
+				suc := SuccessReturns(fn)
 				r.fieldCoverage("C20.coverage", fn, 1, suc)
 				for _, p := range suc {
 					r.Check("C20.checks", FnName(fn)+"#guards", p.Ret.Pos(), p.Facts, `^\+\(P0\.challenge == P1\.challenge\)$|^\+\(P1\.challenge == P0\.challenge\)$`)
@@ -152,7 +152,7 @@ func init() {
 				r.Cond(InstrBefore(vs[0].(ssa.Instruction), us[0].(ssa.Instruction)), "C20.connection", FnName(fn)+"#verify-before-decode", us[0].Pos(), "signature verified before the act is decoded")
 			}
 			if fn := r.MustFn("C20.connection", lp, "authenticatedConnection.verify"); fn != nil {
-				for _, p := range ReturnPaths(fn, 0, isNilErr) {
+				for _, p := range SuccessReturns(fn) {
 					r.Check("C20.connection", FnName(fn)+"#nil", p.Ret.Pos(), p.Facts, `^\+\(P1 == P2\)$|^\+\(P2 == P1\)$`, okOf(`github\.com/libp2p/go-libp2p/core/peer\.ID\.ExtractPublicKey`),
 						`^\+invoke:github\.com/libp2p/go-libp2p/core/crypto\.PubKey\.Verify\(.*P3, P4\)#0$`, `^\+\(invoke:github\.com/libp2p/go-libp2p/core/crypto\.PubKey\.Verify\(.*P3, P4\)#1 == nil\)$`)
 				}
@@ -161,7 +161,7 @@ func init() {
 				for _, c := range Sites(fn, `^pkg/net/security/handshake\.InitiatorAct2\.Next$`, false) {
 					r.Cond(strings.HasPrefix(Desc(c.Common().Args[1]), "call:pkg/net/libp2p.authenticatedConnection.initiatorReceiveAct2(P0)#0"), "C20.connection", FnName(fn)+"#act2", c.Pos(), "act 2 step gets the verified act 2")
 				}
-				for _, p := range ReturnPaths(fn, 0, isNilErr) {
+				for _, p := range SuccessReturns(fn) {
 					r.Check("C20.connection", FnName(fn)+"#success", p.Ret.Pos(), p.Facts, okOf(`pkg/net/security/handshake\.InitiateHandshake`), okOf(`pkg/net/libp2p\.authenticatedConnection\.initiatorSendAct1`),
 						okOf(`pkg/net/libp2p\.authenticatedConnection\.initiatorReceiveAct2`), okOf(`pkg/net/security/handshake\.InitiatorAct2\.Next`), okOf(`pkg/net/libp2p\.authenticatedConnection\.initiatorSendAct3`))
 				}
@@ -177,7 +177,7 @@ func init() {
 				for _, c := range Sites(fn, `^pkg/net/security/handshake\.ResponderAct3\.FinalizeHandshake$`, false) {
 					r.Cond(strings.HasPrefix(Desc(c.Common().Args[1]), "call:pkg/net/libp2p.authenticatedConnection.responderReceiveAct3(P0)#0"), "C20.connection", FnName(fn)+"#act3", c.Pos(), "finalisation gets the verified act 3")
 				}
-				for _, p := range ReturnPaths(fn, 0, isNilErr) {
+				for _, p := range SuccessReturns(fn) {
 					r.Check("C20.connection", FnName(fn)+"#success", p.Ret.Pos(), p.Facts, okOf(`pkg/net/libp2p\.authenticatedConnection\.responderReceiveAct1`), okOf(`pkg/net/security/handshake\.AnswerHandshake`),
 						okOf(`pkg/net/libp2p\.authenticatedConnection\.responderSendAct2`), okOf(`pkg/net/libp2p\.authenticatedConnection\.responderReceiveAct3`), okOf(`pkg/net/security/handshake\.ResponderAct3\.FinalizeHandshake`))
 				}
